@@ -85,6 +85,14 @@ oracle, `linear_sum_assignment` and the sum, the two `matching=True` extractions
 recursion (the `while` on a fuel), the external solvers as parameters; proved equal to reviewed Lean text of the same shape and
 through it to the hand-written models (Lemmas/SrcBridgeMatching.lean, SrcLibMatching.lean).  It also blanks, in the
 `srcSkeleton(After)_aug_entry` pins of the statement-level targets `bottleneck` / `wasserstein`, what it translates.
+
+LANDSCAPE ENGINE (py2lean_landscape.py; keys plexact, plgrid, plnorm, plvec, pltransform of FILES; `pre_build` of C09, C10, C08, C18).  The
+operators of `PersLandscapeExact` / `PersLandscapeApprox` with the guards of base.py behind `super()`, `auxiliary.union_crit_pairs`,
+`tools.snap_pl / lc_approx / average_approx / vectorize`, the `p_norm` / `sup_norm` entry points with `_p_norm` around its segment region,
+and `PersistenceLandscaper.transform`, statement by statement: landscape objects as records, the lazy `compute_landscape()` a library
+operation with the computation a parameter, loops as `foldl` / `foldlM` of their own definitions; proved equal to reviewed Lean text and
+through it to the models of Model/PLArith.lean, PNorm.lean, Approx.lean, Transformers.lean (Lemmas/SrcBridgeLandscape*.lean,
+SrcLibLandscape.lean).  Its files import the generated files of the callees they use (SrcPLArith.lean, SrcPNorm.lean).
 """
 import ast, os, re
 from fractions import Fraction
@@ -1255,6 +1263,8 @@ def trusted_note(key):
         return py2lean_matching.trusted_note(key)
     if key in IMAGE_KEYS:                        # the image engine (py2lean_image.py)
         return py2lean_image.trusted_note(key)
+    if key in LANDSCAPE_KEYS:                    # the landscape engine (py2lean_landscape.py)
+        return py2lean_landscape.trusted_note(key)
     if key in STMT_KEYS:
         return ("harness/translator/py2lean.py + py2lean_stmt.py (statement-level ast translation of the anchored code of %s into "
                 "Generated/%s, proved equal to the hand-written model on every run; its TARGETS table -- binders, the attribute -> "
@@ -1288,6 +1298,8 @@ def manifest_note(key):
         return py2lean_matching.manifest_note(key)
     if key in IMAGE_KEYS:                        # the image engine (py2lean_image.py)
         return py2lean_image.manifest_note(key)
+    if key in LANDSCAPE_KEYS:                    # the landscape engine (py2lean_landscape.py)
+        return py2lean_landscape.manifest_note(key)
     if key in STMT_KEYS:
         for cfg in py2lean_stmt.TARGETS:
             if cfg["file"] == key:
@@ -1326,6 +1338,11 @@ def prop_files(key):
         return list(py2lean_matching.BRIDGES[key]) + [prop_file(key)]
     if key in IMAGE_KEYS:                        # the image engine (py2lean_image.py)
         return list(py2lean_image.BRIDGES.get(key, [])) + [prop_file(key)]
+    if key in LANDSCAPE_KEYS:                    # the landscape engine (py2lean_landscape.py): with the generated files it imports
+        out = []
+        for k in py2lean_landscape.IMPORTED_KEYS.get(key, []):
+            out += [f for f in prop_files(k) if f not in out]
+        return out + [f for f in py2lean_landscape.BRIDGES.get(key, []) if f not in out] + [prop_file(key)]
     return list(py2lean_stmt.BRIDGES.get(key, py2lean_sweep.BRIDGES.get(key, []))) + [prop_file(key)]
 
 
@@ -1650,7 +1667,8 @@ def all_target_functions(path):
             + [c["func"] for c in py2lean_stmt.TARGETS if c.get("pyfile", FILES[c["file"]][0]) == path]
             + [c["func"] for c in py2lean_sweep.TARGETS if FILES[c["file"]][0] == path]
             + [c["func"] for c in py2lean_matching.TARGETS if FILES[c["file"]][0] == path]
-            + [c["func"] for c in py2lean_image.TARGETS + [py2lean_image.PIN_TARGET] if FILES[c["file"]][0] == path])
+            + [c["func"] for c in py2lean_image.TARGETS + [py2lean_image.PIN_TARGET] if FILES[c["file"]][0] == path]
+            + py2lean_landscape.target_functions(path))                       # the landscape engine (py2lean_landscape.py)
 
 
 def not_translated_comment(items):
@@ -1935,6 +1953,8 @@ def render_file(key, root):
         return py2lean_matching.render_file(key, root)
     if key in IMAGE_KEYS:                        # the image engine (py2lean_image.py)
         return py2lean_image.render_file(key, root)
+    if key in LANDSCAPE_KEYS:                    # the landscape engine (py2lean_landscape.py)
+        return py2lean_landscape.render_file(key, root)
     py, out, ns, model, prop = FILES[key]
     o, info = [header(key)], {"source": py, "output": "/".join([GEN.replace(os.sep, "/"), out]), "functions": {}}
     src, fns, file_err, tree = "", {}, None, None
@@ -2194,6 +2214,12 @@ from . import py2lean_image  # noqa: E402
 for _k, _v in py2lean_image.FILES.items():
     FILES[_k] = _v[:5]
     IMAGE_KEYS.add(_k)
+# the landscape engine (arithmetic, norm entry points, grid tools, vectorize, the landscaper's transform) registers its files the same way
+LANDSCAPE_KEYS = set()
+from . import py2lean_landscape  # noqa: E402
+for _k, _v in py2lean_landscape.FILES.items():
+    FILES[_k] = _v[:5]
+    LANDSCAPE_KEYS.add(_k)
 
 # the mGH entry-point engine (gromov_hausdorff, make_distance_matrix_from_adjacency_matrix, the int-type cast; key "ghentry")
 # registers itself like the mGH engine (py2lean_ghentry.register)
